@@ -1,6 +1,7 @@
 package main
 
 import (
+	"errors"
 	"log"
 	"strconv"
 	"bufio"
@@ -434,7 +435,7 @@ func c09(args []string) {
 		for i := 0; i < nq; i++ {
 			runQuiet(w, rng, i+int(tr.Seed())*(nq%8))
 		}
-		for i := 0; i < nq; i++ {
+		for i := 0; i < 2*nq; i++ {
 			runTransient(w, rng, i)
 		}
 		for i := 0; i < 4+nfree/20; i++ {
@@ -613,22 +614,8 @@ func runScriptedV(w *tr.Writer, rng *rand.Rand, procs int, variant int) {
 	for i := range slowGot {
 		w.Emit(c09Recv{"recv", 1, msgDigest(&slowGot[i])})
 	}
-	close(fast)
-	for m := range fast {
-		mm := m
-		w.Emit(c09Recv{"recv", 2, msgDigest(&mm)})
-	}
-	// anything still sitting in the slow channel
-	for {
-		select {
-		case m := <-slow:
-			mm := m
-			w.Emit(c09Recv{"recv", 1, msgDigest(&mm)})
-			continue
-		default:
-		}
-		break
-	}
+	drainQuiet(w, fast, 2)
+	drainQuiet(w, slow, 1) // anything still sitting in the slow channel
 	if end.Returned {
 		end.Leaked = settle2(base)
 	}
@@ -661,12 +648,21 @@ func runQuiet(w *tr.Writer, rng *rand.Rand, variant int) {
 		})
 	}()
 	var got2 []handler.Message
+	var mu2 sync.Mutex
+	quit2 := make(chan struct{})
 	done2 := make(chan struct{})
 	go func() {
-		for m := range c2 {
-			got2 = append(got2, m)
+		defer close(done2)
+		for {
+			select {
+			case m := <-c2:
+				mu2.Lock()
+				got2 = append(got2, m)
+				mu2.Unlock()
+			case <-quit2:
+				return
+			}
 		}
-		close(done2)
 	}()
 	src.Feed(in[:at])
 	time.Sleep(quiet)
@@ -679,16 +675,15 @@ func runQuiet(w *tr.Writer, rng *rand.Rand, variant int) {
 	case <-time.After(10 * time.Second):
 	}
 	if end.Returned {
-		close(c1)
-		close(c2)
+		time.Sleep(5 * time.Millisecond)
+		close(quit2)
 		<-done2
-		for m := range c1 {
-			mm := m
-			w.Emit(c09Recv{"recv", 1, msgDigest(&mm)})
-		}
+		drainQuiet(w, c1, 1)
+		mu2.Lock()
 		for i := range got2 {
 			w.Emit(c09Recv{"recv", 2, msgDigest(&got2[i])})
 		}
+		mu2.Unlock()
 		end.Leaked = settle2(base)
 	}
 	w.Emit(end)
@@ -700,12 +695,16 @@ type pausingSource struct {
 	parts [][]byte
 	gaps  []time.Duration // sleep before handing over part i
 	i     int
-	eof   bool // the next Read reports a transient EOF
+	eof   bool  // the next Read reports a transient EOF
+	soft  error // what a transient interruption looks like (io.EOF or a read time-out); the final one is io.EOF
 }
 
 func (p *pausingSource) Read(b []byte) (int, error) {
 	if p.eof {
 		p.eof = false
+		if p.soft != nil {
+			return 0, p.soft
+		}
 		return 0, io.EOF
 	}
 	if p.i >= len(p.parts) {
@@ -748,9 +747,15 @@ func runTransient(w *tr.Writer, rng *rand.Rand, variant int) {
 	if variant%2 == 1 {
 		cfg.SystemLog = log.New(io.Discard, "", 0)
 	}
+	if variant%4 >= 2 {
+		cfg.WaitTimeOnEOFMilliseconds = 0 // retry at once
+	}
+	if variant%4 == 2 || variant%8 == 5 {
+		src.soft = errors.New("read /dev/ttyACM0: i/o timeout") // the interruptions are read time-outs, not end-of-file
+	}
 	ref := sequentialRef(in, c09Start)
 	ch := make(chan handler.Message, 64)
-	w.Emit(c09Case{"case", ref, 1, fmt.Sprintf("transient-eof log=%v", cfg.SystemLog != nil), []int{64}, len(in), runtime.GOMAXPROCS(0)})
+	w.Emit(c09Case{"case", ref, 1, fmt.Sprintf("transient-eof log=%v wait=%d timeouts=%v", cfg.SystemLog != nil, cfg.WaitTimeOnEOFMilliseconds, src.soft != nil), []int{64}, len(in), runtime.GOMAXPROCS(0)})
 	base := runtime.NumGoroutine()
 	verifhook.Handler = nil
 	ret := make(chan string, 1)
@@ -766,14 +771,25 @@ func runTransient(w *tr.Writer, rng *rand.Rand, variant int) {
 	case <-time.After(10 * time.Second):
 	}
 	if end.Returned {
-		close(ch)
-		for m := range ch {
-			mm := m
-			w.Emit(c09Recv{"recv", 1, msgDigest(&mm)})
-		}
+		drainQuiet(w, ch, 1)
 		end.Leaked = settle2(base)
 	}
 	w.Emit(end)
+}
+
+// drainQuiet reads what a consumer channel still delivers after the call has returned, until it has been quiet for
+// 5 ms.  The channel is never closed by the driver: a pipeline that still sends after its return (which is what the
+// extra messages show) would panic on a closed channel and take the driver with it.
+func drainQuiet(w *tr.Writer, ch chan handler.Message, cons int) {
+	for {
+		select {
+		case m := <-ch:
+			mm := m
+			w.Emit(c09Recv{"recv", cons, msgDigest(&mm)})
+		case <-time.After(5 * time.Millisecond):
+			return
+		}
+	}
 }
 
 func settle2(base int) int { return settle(base) }
